@@ -63,6 +63,23 @@ def core_configs(tier):
     return out
 
 
+S_STOP_QUEUED = [["send", "t", None, ["a0"]], ["send", "u", None, ["b0"]], ["send", "t", None, ["c0", "c1"]],
+                 ["send", "t", "k", [None]], ["stop"]]
+S_CANCEL_QUEUED = [["send", "t", None, ["a0"]], ["send", "u", None, ["b0"]], ["cancel", 0], ["send", "t", None, ["c0"]],
+                   ["stop"]]
+
+
+def queued_configs(tier):
+    """Sends waiting below the batching thresholds when stop()/cancel arrive."""
+    out = []
+    for acks, t, script in itertools.product([1, 0], [0, 5], [S_STOP_QUEUED, S_CANCEL_QUEUED]):
+        prod = {"acks": acks, "max_req_attempts": 2, "batch_send": True, "batch_every_n": 10, "batch_every_b": 0,
+                "batch_every_t": t}
+        out.append({"cluster": CLUSTER, "discovery": False, "producer": prod, "script": script,
+                    "menu": MENU_LIGHT, "timeout_ms": 2000})
+    return out
+
+
 def persistent_configs(tier):
     """The same fault on every attempt until the limit -- what mocks never do."""
     out = []
@@ -103,10 +120,12 @@ def run(tier, seed, only=None):
     if tier == "quick":
         plans = [("all-configs-1dev", configs(tier), (1, 1, 1)),
                  ("core-2dev", core_configs(tier), (2, 1, 2)),
+                 ("queued-stop-cancel", queued_configs(tier), (1, 1, 2)),
                  ("persistent-faults", persistent_configs(tier), (0, 1, 1))]
     else:
         plans = [("all-configs-2dev", configs(tier), (2, 1, 2)),
                  ("core-3dev", core_configs(tier), (2, 2, 3)),
+                 ("queued-stop-cancel", queued_configs(tier), (2, 2, 3)),
                  ("persistent-faults", persistent_configs(tier), (1, 1, 2))]
     if only:
         plans = [p for p in plans if p[0] in only]
